@@ -110,13 +110,37 @@ class Phase:
 
 
 def unit_factor(f):
-    """The constant scalar prefactor of the (single) return expression `c * X`: returns the python complex c or None."""
+    """The constant scalar prefactor of the (single) return expression `c * X`: returns the python complex c, None, or "conditional" when
+    a factor is a local that holds one of several constants depending on the path."""
     rets = [n for n in ast.walk(f.node) if isinstance(n, ast.Return) and n.value is not None]
     if len(rets) != 1:
         return None
     e = rets[0].value
+    conditional = []
+
+    def const_choices(name):
+        """constants a local name can hold when every binding of it is a constant or a conditional expression of constants"""
+        out = set()
+        binds = [st for st in ast.walk(f.node) if isinstance(st, ast.Assign) and any(isinstance(t, ast.Name) and t.id == name for t in st.targets)]
+        if not binds or name in f.params:
+            return None
+        for st in binds:
+            vals = [st.value.body, st.value.orelse] if isinstance(st.value, ast.IfExp) else [st.value]
+            for v in vals:
+                c, pure = factor(v)
+                if not pure:
+                    return None
+                out.add(c)
+        return out
 
     def factor(x):
+        if isinstance(x, ast.Name):
+            ch = const_choices(x.id)
+            if ch is not None and len(ch) == 1:
+                return next(iter(ch)), True
+            if ch is not None:
+                conditional.append((x.id, sorted(ch, key=str)))
+                return 1 + 0j, True
         if isinstance(x, ast.Constant) and isinstance(x.value, (int, float, complex)):
             return complex(x.value), True
         if isinstance(x, ast.UnaryOp) and isinstance(x.op, ast.USub):
@@ -134,4 +158,6 @@ def unit_factor(f):
         cs = {factor(x)[0] for x in e.args[0].elts}
         return cs.pop() if len(cs) == 1 else None
     c, _ = factor(e)
+    if conditional:
+        return "conditional"  # a prefactor selected per path: decided on each path by the symbolic evaluation of the kernel
     return c
